@@ -57,6 +57,11 @@ def call(tt, case):
         c = X.cores[0]
         if cls == "axis":
             return lambda: X.set_core(p, X.cores[0].clone())
+        if cls == "axis_neg_last":
+            return lambda: X.set_core(p, X.cores[-1].clone())
+        if cls == "axis_neg_unit":
+            cl = X.cores[-1]
+            return lambda: X.set_core(p, torch.ones([1] + list(cl.shape[1:-1]) + [1], dtype=dt))
         if cls == "rank":
             shp = list(c.shape); shp[-1] += 1; shp[0] += 1
             return lambda: X.set_core(0, torch.zeros(shp, dtype=dt))
